@@ -25,6 +25,7 @@ No Mathlib: this file is linked into the native driver.
 import HedVerif.Generated.C08Codes
 import HedVerif.Model.Tok
 import HedVerif.Model.Assemble
+import HedVerif.Model.Defs
 
 namespace HedVerif.SidecarV
 open HedVerif.Generated
@@ -196,7 +197,43 @@ deriving DecidableEq, Repr, Inhabited
 inductive Kind where
   | hedUsedColumn | unknownType | hedUsed | blank | wrongType | naUsed
   | malformedRef | invalidRef | selfRef | nestedRef | poundValue | poundCategory | badDefLocation
+  /-- an issue of `DefinitionDict.check_for_definitions` / `_add_definition` (a definition declared in the sidecar) -/
+  | defn (i : Defs.Issue)
 deriving DecidableEq, Repr
+
+/-- `DefinitionErrors.*` constant behind each issue of the definition model -/
+def defnName : Defs.Issue → Str
+  | .wrongNumberGroups => C08.kind_WRONG_NUMBER_GROUPS
+  | .noDefinitionContents => C08.kind_NO_DEFINITION_CONTENTS
+  | .wrongNumberTags => C08.kind_WRONG_NUMBER_TAGS
+  | .invalidDefExtension => C08.kind_INVALID_DEFINITION_EXTENSION
+  | .defTagInDefinition => C08.kind_DEF_TAG_IN_DEFINITION
+  | .badPropInDefinition => C08.kind_BAD_PROP_IN_DEFINITION
+  | .wrongNumberPlaceholderTags => C08.kind_WRONG_NUMBER_PLACEHOLDER_TAGS
+  | .placeholderNoTakesValue => C08.kind_PLACEHOLDER_NO_TAKES_VALUE
+  | .duplicateDefinition => C08.kind_DUPLICATE_DEFINITION
+
+def defnCode : Defs.Issue → Str
+  | .wrongNumberGroups => C08.code_WRONG_NUMBER_GROUPS
+  | .noDefinitionContents => C08.code_NO_DEFINITION_CONTENTS
+  | .wrongNumberTags => C08.code_WRONG_NUMBER_TAGS
+  | .invalidDefExtension => C08.code_INVALID_DEFINITION_EXTENSION
+  | .defTagInDefinition => C08.code_DEF_TAG_IN_DEFINITION
+  | .badPropInDefinition => C08.code_BAD_PROP_IN_DEFINITION
+  | .wrongNumberPlaceholderTags => C08.code_WRONG_NUMBER_PLACEHOLDER_TAGS
+  | .placeholderNoTakesValue => C08.code_PLACEHOLDER_NO_TAKES_VALUE
+  | .duplicateDefinition => C08.code_DUPLICATE_DEFINITION
+
+def defnSev : Defs.Issue → Nat
+  | .wrongNumberGroups => C08.sev_WRONG_NUMBER_GROUPS
+  | .noDefinitionContents => C08.sev_NO_DEFINITION_CONTENTS
+  | .wrongNumberTags => C08.sev_WRONG_NUMBER_TAGS
+  | .invalidDefExtension => C08.sev_INVALID_DEFINITION_EXTENSION
+  | .defTagInDefinition => C08.sev_DEF_TAG_IN_DEFINITION
+  | .badPropInDefinition => C08.sev_BAD_PROP_IN_DEFINITION
+  | .wrongNumberPlaceholderTags => C08.sev_WRONG_NUMBER_PLACEHOLDER_TAGS
+  | .placeholderNoTakesValue => C08.sev_PLACEHOLDER_NO_TAKES_VALUE
+  | .duplicateDefinition => C08.sev_DUPLICATE_DEFINITION
 
 def Kind.name : Kind → Str
   | .hedUsedColumn => C08.kind_SIDECAR_HED_USED_COLUMN
@@ -212,6 +249,7 @@ def Kind.name : Kind → Str
   | .poundValue => C08.kind_INVALID_POUND_SIGNS_VALUE
   | .poundCategory => C08.kind_INVALID_POUND_SIGNS_CATEGORY
   | .badDefLocation => C08.kind_BAD_DEFINITION_LOCATION
+  | .defn i => defnName i
 
 def Kind.code : Kind → Str
   | .hedUsedColumn => C08.code_SIDECAR_HED_USED_COLUMN
@@ -227,6 +265,7 @@ def Kind.code : Kind → Str
   | .poundValue => C08.code_INVALID_POUND_SIGNS_VALUE
   | .poundCategory => C08.code_INVALID_POUND_SIGNS_CATEGORY
   | .badDefLocation => C08.code_BAD_DEFINITION_LOCATION
+  | .defn i => defnCode i
 
 def Kind.sev : Kind → Nat
   | .hedUsedColumn => C08.sev_SIDECAR_HED_USED_COLUMN
@@ -242,6 +281,7 @@ def Kind.sev : Kind → Nat
   | .poundValue => C08.sev_INVALID_POUND_SIGNS_VALUE
   | .poundCategory => C08.sev_INVALID_POUND_SIGNS_CATEGORY
   | .badDefLocation => C08.sev_BAD_DEFINITION_LOCATION
+  | .defn i => defnSev i
 
 def mk (k : Kind) (col key : Option Str) : Issue := ⟨k.name, k.code, k.sev, col, key⟩
 
@@ -263,6 +303,12 @@ structure Oracle where
   defIssues : List Issue
   /-- does the tag with this text resolve to `Def-expand` (`tag.short_base_tag.casefold() == "def-expand"`)? -/
   isDefExpand : Str → Bool := fun _ => false
+  /-- the children of `HedString(s, schema)` as the definition model (`Model/Defs`, property C09) reads them: groups and
+  tags with what the schema says about each tag (Def / Def-expand / Definition / other, printed name and extension,
+  takes-value, unique-or-required).  Only consulted by `validateD` / `extractDefs` (sidecars that declare definitions). -/
+  defTree : Str → List Defs.Node := fun _ => []
+  /-- `str.casefold` on definition names -/
+  fold : Str → Str := id
 
 def ext (col key : Option Str) (cs : Str × Nat) : Issue := ⟨[], cs.1, cs.2, col, key⟩
 
@@ -593,6 +639,66 @@ def validate (g : Guards) (O : Oracle) (doc : Json) : Except Exn (List Issue) :=
   match mapE (columnIssues g O refsStrings allRefCols) cols with
   | .error x => .error x
   | .ok ls => .ok (sIss ++ rIss ++ O.defIssues ++ ls.flatten)
+
+/-! ## sidecars that declare definitions
+
+`Sidecar.get_def_dict(hed_schema, extra_def_dicts)` → `extract_definitions`: every HED string of the sidecar, column by column
+and key by key (`get_hed_strings()` of the columns as typed by the constructor), goes through
+`DefinitionDict.check_for_definitions` on one dictionary: a definition is kept under its folded name unless it breaks a
+condition or the name is taken (first wins).  Its issues carry the column and — when the column has several entries — the key
+(`_extract_definition_issues`).  `DefinitionDict([sidecar dict] + extra)` then merges the external dictionaries: a name that
+the sidecar already defines yields one more `duplicateDefinition` issue, whose context is empty (the context list it kept was
+popped empty long before).  `SidecarValidator.validate` adds both lists after the early exit and skips the `#` count of
+entries in which a `Definition` tag is found. -/
+
+/-- an issue of `check_for_definitions` in its sidecar context -/
+def defLabel (col : Str) (key : Option Str) (i : Defs.Issue) : Issue := mk (.defn i) (some col) key
+
+/-- one entry string through `check_for_definitions` -/
+def extractString (O : Oracle) (col : Str) (key : Option Str) (acc : Defs.DefDict × List Issue) (s : Str) :
+    Defs.DefDict × List Issue :=
+  let r := Defs.acceptString O.fold acc.1 (O.defTree s)
+  (r.1, acc.2 ++ r.2.map (defLabel col key))
+
+/-- one column: `(name, get_hed_strings())` -/
+def extractColumn (O : Oracle) (acc : Defs.DefDict × List Issue) (c : Str × List (Str × Str)) : Defs.DefDict × List Issue :=
+  c.2.foldl (fun a ks => extractString O c.1 (keyCtx c.2 ks.1) a ks.2) acc
+
+/-- `Sidecar.extract_definitions`: the sidecar's dictionary and `_extract_definition_issues` -/
+def extractDefs (g : Guards) (O : Oracle) (cols : List Col) : Except Exn (Defs.DefDict × List Issue) :=
+  match mapE (fun c => match hedStrings g c with
+      | .error x => .error x
+      | .ok strs => .ok (c.name, strs)) cols with
+  | .error x => .error x
+  | .ok cs => .ok (cs.foldl (extractColumn O) ([], []))
+
+/-- `DefinitionDict([sidecar dict, external…]).issues`: external names (folded, in order) the sidecar already defines -/
+def mergeIssues (dd : Defs.DefDict) (ext : List Str) : List Issue :=
+  (ext.filter fun k => (Defs.lookup dd k).isSome).map fun _ => mk (.defn .duplicateDefinition) none none
+
+/-- `find_tags({"Definition"}, recursive=True, include_groups=0)` on the entry's tree -/
+def defCountOf (O : Oracle) (s : Str) : Nat := ((Defs.allTagsL (O.defTree s)).filter fun t => t.base == .definition).length
+
+/-- the oracle with its two definition fields computed instead of supplied -/
+def withDefs (O : Oracle) (dis : List Issue) : Oracle := { O with defIssues := dis, defCount := defCountOf O }
+
+/-- the sidecar's own definitions, from the document: `Sidecar(doc).get_def_dict(schema)` -/
+def extractDefsDoc (g : Guards) (O : Oracle) (doc : Json) : Except Exn (Defs.DefDict × List Issue) :=
+  match load g doc with
+  | .error x => .error x
+  | .ok (_, src) =>
+  match columnData src with
+  | .error x => .error x
+  | .ok cols => extractDefs g O cols
+
+/-- `Sidecar(..).validate(schema, extra_def_dicts)` with the definition part computed by the model: `O.defIssues` and
+`O.defCount` are not consulted; `ext` = the folded names defined by the external dictionaries, in order.
+(The code extracts after the early exit; the calls that could raise there — `get_hed_strings` — are those `_validate_refs`
+already made, so extracting first changes nothing observable.) -/
+def validateD (g : Guards) (O : Oracle) (ext : List Str) (doc : Json) : Except Exn (List Issue) :=
+  match extractDefsDoc g O doc with
+  | .error x => .error x
+  | .ok (dd, dis) => validate g (withDefs O (dis ++ mergeIssues dd ext)) doc
 
 /-! names used in DESIGN.md for the parts of the model (`structure` is a Lean keyword: `structureIssues`) -/
 abbrev kind := @detect
